@@ -820,6 +820,10 @@ report_corruption(ldb_reporter_t *report, size_t bytes, int status) {
 
   if (report->status != NULL && *report->status == LDB_OK)
     *report->status = status;
+
+  /* A failed read is not a corrupted record: never ignore it. */
+  if (status != LDB_CORRUPTION && *report->io_status == LDB_OK)
+    *report->io_status = status;
 }
 
 static int
@@ -836,6 +840,7 @@ ldb_recover_log_file(ldb_t *db, uint64_t log_number,
   ldb_slice_t record;
   ldb_batch_t batch;
   int compactions = 0;
+  int io_error = LDB_OK;
   ldb_memtable_t *mem = NULL;
   ldb_reader_t reader;
 
@@ -847,14 +852,13 @@ ldb_recover_log_file(ldb_t *db, uint64_t log_number,
 
   rc = ldb_seqfile_create(fname, &file);
 
-  if (rc != LDB_OK) {
-    ldb_maybe_ignore_error(db, &rc);
+  if (rc != LDB_OK)
     return rc;
-  }
 
   /* Create the log reader. */
   reporter.fname = fname;
   reporter.status = (db->options.paranoid_checks ? &rc : NULL);
+  reporter.io_status = &io_error;
   reporter.info_log = db->options.info_log;
   reporter.corruption = report_corruption;
 
@@ -914,6 +918,9 @@ ldb_recover_log_file(ldb_t *db, uint64_t log_number,
       }
     }
   }
+
+  if (rc == LDB_OK)
+    rc = io_error;
 
   ldb_buffer_clear(&buf);
   ldb_batch_clear(&batch);
